@@ -124,14 +124,23 @@ func calculate(doc billable) error {
 	// Build list of taxable lines
 	tls := make([]tax.TaxableLine, 0)
 	for _, l := range doc.getLines() {
+		if l == nil {
+			continue
+		}
 		if l.Total != nil {
 			tls = append(tls, l)
 		}
 	}
 	for _, l := range doc.getDiscounts() {
+		if l == nil {
+			continue
+		}
 		tls = append(tls, l)
 	}
 	for _, l := range doc.getCharges() {
+		if l == nil {
+			continue
+		}
 		tls = append(tls, l)
 	}
 
@@ -203,6 +212,9 @@ func calculate(doc billable) error {
 
 func calculateOrgDocumentRefs(drs []*org.DocumentRef, cur currency.Code, rr cbc.Key) {
 	for _, drs := range drs {
+		if drs == nil {
+			continue
+		}
 		if drs.Currency != currency.CodeEmpty && drs.Currency.Def() != nil {
 			cur = drs.Currency
 		}
@@ -225,18 +237,27 @@ func removeIncludedTaxes(doc billable) error {
 	doc.setTotals(new(Totals))
 	lines := doc.getLines()
 	for i, l := range doc.getLines() {
+		if l == nil {
+			continue
+		}
 		lines[i] = removeLineIncludedTaxes(l, tpi)
 	}
 
 	discounts := doc.getDiscounts()
 	if len(discounts) > 0 {
 		for i, l := range discounts {
+			if l == nil {
+				continue
+			}
 			discounts[i] = l.removeIncludedTaxes(tpi)
 		}
 	}
 	charges := doc.getCharges()
 	if len(charges) > 0 {
 		for i, l := range charges {
+			if l == nil {
+				continue
+			}
 			charges[i] = l.removeIncludedTaxes(tpi)
 		}
 	}
@@ -267,24 +288,39 @@ func applyCustomerRates(doc billable) {
 	}
 	country := doc.getCustomer().TaxID.Country
 	for _, l := range doc.getLines() {
+		if l == nil {
+			continue
+		}
 		addCountryToTaxes(l.Taxes, country)
 	}
 	for _, d := range doc.getDiscounts() {
+		if d == nil {
+			continue
+		}
 		addCountryToTaxes(d.Taxes, country)
 	}
 	for _, c := range doc.getCharges() {
+		if c == nil {
+			continue
+		}
 		addCountryToTaxes(c.Taxes, country)
 	}
 }
 
 func addCountryToTaxes(ts tax.Set, country l10n.TaxCountryCode) {
 	for _, t := range ts {
+		if t == nil {
+			continue
+		}
 		t.Country = country
 	}
 }
 
 func calculateComplements(comps []*schema.Object) error {
 	for _, c := range comps {
+		if c == nil {
+			continue
+		}
 		if err := c.Calculate(); err != nil {
 			return err
 		}
